@@ -517,7 +517,9 @@ func TestC10(t *testing.T) {
 				}
 			}
 			if len(ops) >= 2 || depth < 2 {
-				journal("C10 seq mult=%d %v", mult, opsStr(ops))
+				if seqs&255 == 0 {
+					journal("C10 seq mult=%d %v", mult, opsStr(ops))
+				}
 				_, i, sig, msg := c10RunSeq(mult, startNodes[0], ops)
 				rep.Transitions++
 				seqs++
@@ -558,6 +560,9 @@ func TestC10(t *testing.T) {
 			for _, path := range frontier {
 				for _, o := range alpha {
 					ops := append(append([]qop(nil), path...), o)
+					if rep.Transitions&1023 == 0 {
+						journal("C10 bfs mult=%d %v", m, opsStr(ops))
+					}
 					e, i, sig, msg := c10RunSeq(m, startNodes[0], ops)
 					rep.Transitions++
 					if i >= 0 {
